@@ -59,6 +59,9 @@ def check(tier: str) -> Result:
     n_lbf = lbf_rules.add_obligations(res, tree, "C09.R3", "transition")
     from .common import borrow
     n_b = borrow(res, "c04", {"C04.R3b": "C09.R5"}, envs=["Knapsack", "TSP", "CVRP", "SlidingTilePuzzle", "Minesweeper", "Connector"])
+    # ---- R6: movement rules: a move that would leave the grid is recognised exactly at the border (rules/bounds_rules.py)
+    from . import bounds_rules
+    n_bd = bounds_rules.add_obligations(res, tree, "C09.R6", scope="all")
     res.analysed = {"table_pairings": n, "axis_typed_sites": n_axis, "mask_vs_step_validity": n_b}
     res.assumptions = ["direction names in the code carry their usual meaning (up = previous row, left = previous column)",
                        "PacMan is excluded from the naming convention (its x/y naming is transposed); only sibling agreement is checked there"]
